@@ -44,7 +44,7 @@ NAMES = ["PathBuf", "Uuid", "DateTime<Utc>"]
 TARGETS = ["string", "number", "boolean"]
 LEAVES18 = ["String", "i32", "PathBuf", "Uuid", "DateTime<Utc>", "User"]
 FILL18 = ["String", "PathBuf", "bool", "User"]
-KF_BY_CLASS = {}      # C18-1, C18-2, C18-3 were repaired (known_findings/C18.json holds fixed records only)
+KF_BY_CLASS = {}      # C18-1, C18-2, C18-3 were repaired; C18-4 is assigned by the declared-name stream (tools/props/c18_hist.py) (known_findings/C18.json holds fixed records only)
 
 
 def leaf18(s):
@@ -224,6 +224,9 @@ def run(rep):
     hcases = c18_hist.cases_for(rep.tier, rng)
     rep.add("history", c18_hist.evaluate(hcases))
     rep.add("project-frame-corpus", c18_hist.evaluate_frame(json.load(open(os.path.join(vlib.VERIF, "corpus", "C18", "histories", "frame.json")))))
+    # configuration files with oddly typed sibling settings; projects that declare the mapped name themselves
+    rep.add("odd-siblings", c18_hist.evaluate_variants(c18_hist.sibling_cases(rep.tier), "odd-siblings"))
+    rep.add("declared-name", c18_hist.evaluate_variants(c18_hist.decl_cases(rep.tier), "declared-name"))
     fcases = c18_hist.frame_cases(rep.tier)
     rep.add("project-frame", c18_hist.evaluate_frame(fcases))
     rep.extra.setdefault("distribution", {})["project-frame"] = {"cases": len(fcases), "cli_runs": 2 * len(fcases)}
@@ -277,6 +280,10 @@ def replay(rep, payload):
         if c.get("what") == "history":
             vlib.build_repo_bin()
             rep.add("history", c18_hist.evaluate([{k: c[k] for k in ("route", "edit", "source", "mode", "name", "shape") if k in c}]))
+            continue
+        if c.get("what") in ("odd-siblings", "declared-name"):
+            vlib.build_repo_bin()
+            rep.add(c["what"], c18_hist.evaluate_variants([{k: v for k, v in c.items() if k != "what"}], c["what"]))
             continue
         if c.get("what") == "project-frame":
             vlib.build_repo_bin()
